@@ -161,7 +161,13 @@ func init() {
 		Rule: "seeded map histories (set new/existing, remove present/absent, get, has, set-type, pop-all; keys from a per-run universe incl. keys above the key inline limit; nested and large values) " +
 			"at swarm slab sizes with commit/drop-cache/reopen interleaved; non-trivial = some map spanned >= 3 slabs and the history contains an update, a removal of a present key and a lookup of an absent key; distinct by trace hash",
 	}, stdHooks{
-		config: func(r *Rng, tier string) Config { return baseConfig(r, "map", tier) },
+		config: func(r *Rng, tier string) Config {
+			c := baseConfig(r, "map", tier)
+			if r.Chance(0.15) {
+				c.HipShift = uint(r.Range(1, 3)) // "any hash distribution": collisions through the hash input under the default digester
+			}
+			return c
+		},
 		profile: func(r *Rng, cfg Config) *Profile {
 			p := &Profile{
 				Name: "map", W: mapWeights(), MaxRoots: r.Range(1, 3), Owners: []uint64{1, 2, 0x0102030405060708}[:r.Range(1, 3)],
